@@ -7,7 +7,7 @@ from pyvc.contracts import contract
 IC = "pyopenapi_gen.context.import_collector:ImportCollector"
 
 c = contract(f"{IC}.get_formatted_imports", props=["C09"], shape={"self.imports": "dict", "self.relative_imports": "dict", "self.plain_imports": "set"},
-             ordered_iteration=True, abstract_unsupported=True, dict_values={"self.imports": "set", "self.relative_imports": "set"})
+             ordered_iteration=True, abstract_unsupported=True)
 
 
 @c.ensures(note="vacuity guard / type of the result")
